@@ -90,7 +90,7 @@ def entries(mod):
         if not f.body:
             continue
         d = f.dname
-        if re.match(r"^w_\w+::(call|res)\(", d) or d.startswith("yw_routes::routes<"):
+        if re.match(r"^(w|so)_\w+::(call|res)\(", d) or d.startswith("yw_routes::routes<"):
             out.append(("wrapper", f))
         elif re.search(r"yorel::yomm2::detail::thunk<.*>::fn\(", d):
             out.append(("thunk", f))
